@@ -304,3 +304,4 @@ MANIFEST = {
 }
 MANIFEST['text'] += (' ' + '15% of the parser cases carry -bf; solved cases inject transient or persistent failures, and those without a failure also check the lexicographic optimum (extras kept with their criterion).')
 MANIFEST['text'] += (' ' + 'Half of the solved cases with a failure solve the same object again without failure and require the full list of criteria; 40% have a bystander Solver with other criteria on the same file solved before the results are read.')
+MANIFEST['text'] += (' ' + '16% of the cases are solved; those without an injected failure use cost-focused option sets (explicit 0 multipliers, one or two extras) and must reach the lexicographic optimum with exactly those extras.')
